@@ -1,6 +1,7 @@
 # Pylint does not work with dynamically generated types, which @operator does
 # pylint: disable=isinstance-second-argument-not-valid-type
 
+import copy
 import struct
 
 from .architecture import instruction_opcodes
@@ -74,22 +75,28 @@ class RegisterModeOperandStub:
         # great for function calls, but terrible for index addressing. Hence
         # we're 'hoisting' registers up here.
         def hoist(token):
+            # New tokens are built instead of modifying the operand tree in place: the same
+            # tree is compiled again by every iteration of '.repeat'
             if isinstance(token, operators.InfixOperator) and not isinstance(token, operators.call):
-                token.rhs = hoist(token.rhs)
-                if isinstance(token.rhs, operators.call) and try_as_register(token.rhs.rhs, state) is not None:
-                    register = token.rhs.rhs
-                    ctx_end = token.ctx_end
-                    token.rhs = token.rhs.lhs
-                    token.ctx_end = token.rhs.ctx_end
-                    return operators.call(token.ctx_start, ctx_end, token, register)
+                rhs = hoist(token.rhs)
+                if isinstance(rhs, operators.call) and try_as_register(rhs.rhs, state) is not None:
+                    inner = copy.copy(token)
+                    inner.rhs = rhs.lhs
+                    inner.ctx_end = rhs.lhs.ctx_end
+                    return operators.call(token.ctx_start, token.ctx_end, inner, rhs.rhs)
+                if rhs is not token.rhs:
+                    token = copy.copy(token)
+                    token.rhs = rhs
             elif isinstance(token, operators.PrefixOperator):
-                token.operand = hoist(token.operand)
-                if isinstance(token.operand, operators.call) and try_as_register(token.operand.rhs, state) is not None:
-                    register = token.operand.rhs
-                    ctx_end = token.ctx_end
-                    token.operand = token.operand.lhs
-                    token.ctx_end = token.operand.ctx_end
-                    return operators.call(token.ctx_start, ctx_end, token, register)
+                inner_operand = hoist(token.operand)
+                if isinstance(inner_operand, operators.call) and try_as_register(inner_operand.rhs, state) is not None:
+                    inner = copy.copy(token)
+                    inner.operand = inner_operand.lhs
+                    inner.ctx_end = inner_operand.lhs.ctx_end
+                    return operators.call(token.ctx_start, token.ctx_end, inner, inner_operand.rhs)
+                if inner_operand is not token.operand:
+                    token = copy.copy(token)
+                    token.operand = inner_operand
             return token
         operand = hoist(operand)
 
